@@ -166,6 +166,22 @@ def build():
         put(cid + "_bom", base, lang, enc="utf-8-sig")
         put(cid + "_utf16", base, lang, enc="utf-16")
         put(cid + "_crlf", base, lang, nl="\r\n")
+        # non-ASCII text inside the code: in a string before the function's last token (its end
+        # column moves if the bytes are decoded differently) and, where the language allows, in a name
+        cid = f"{p}.uni"
+        nm = "v_" + _ident(cid)
+        if lang == "py":
+            body = [f"def {nm}(a):", "    s = 'żółw'", "    return 'é' + s + 'ü' * a", "", "def grüße_" + _ident(cid) + "(b): return 'ß' if b else 'ø'"]
+        else:
+            body = [_hdr(lang, nm) + " {", "    s = \"żółw\";", "    return s + \"é\"; }", "",
+                    _hdr(lang, "w_" + _ident(cid), 1) + " { t = \"ß\"; return t; }"]
+        put(cid, _wrap(lang, body, cid), lang)
+        # suppression marker on a long function, next to an unmarked long one
+        cid = f"{p}.nocl"
+        f1 = _fn(lang, "hidden_" + _ident(cid), 34)
+        f1[0] = f1[0] + ("  # nocl" if lang == "py" else "  // NOCL please")
+        body = f1 + [""] + _fn(lang, "shown_" + _ident(cid), 33, variant=1)
+        put(cid, _wrap(lang, body, cid), lang)
         # whitespace-only variation of .multi (same functions, more blank lines)
         cid = f"{p}.multi_ws"
         body = []
